@@ -5,6 +5,10 @@ package main
 
 import (
 	"fmt"
+	"github.com/ipfs/go-cid"
+	cidlink "github.com/ipld/go-ipld-prime/linking/cid"
+	"github.com/storacha/go-ucanto/core/delegation"
+	"github.com/storacha/go-ucanto/core/ipld/block"
 	"math/rand"
 	"sort"
 	"strings"
@@ -29,7 +33,33 @@ import (
 	"github.com/storacha/go-ucanto/validator"
 )
 
+// selfRefInvocation builds an invocation by `who` on a resource it does not own, whose only proof is a delegation
+// (who -> who, correctly signed) that lists ITSELF as its proof: both the block's address and the proof link are the
+// dag-cbor CID with a zero-length sha2-256 digest.
+func selfRefInvocation(who, service *Prin, resource string) (invocation.Invocation, error) {
+	zero, err := cid.Cast([]byte{0x01, 0x71, 0x12, 0x00})
+	if err != nil {
+		return nil, err
+	}
+	l := cidlink.Link{Cid: zero}
+	d, err := delegation.Delegate(who.Signer, who.DID, []ucan.Capability[ucan.CaveatBuilder]{
+		ucan.NewCapability[ucan.CaveatBuilder]("store/add", resource, Cav{})}, delegation.WithNoExpiration(), delegation.WithProof(delegation.FromLink(l)))
+	if err != nil {
+		return nil, err
+	}
+	inv, err := invocation.Invoke(who.Signer, service.DID, ucan.NewCapability[ucan.CaveatBuilder]("store/add", resource, Cav{}),
+		delegation.WithNoExpiration(), delegation.WithProof(delegation.FromLink(l)))
+	if err != nil {
+		return nil, err
+	}
+	if err := inv.Attach(block.NewBlock(l, d.Root().Bytes())); err != nil {
+		return nil, err
+	}
+	return inv, nil
+}
+
 type Batch struct {
+	SelfRef  bool // also send an invocation whose proof is a self-referential delegation (see selfRefInvocation)
 	ID       int
 	W        *World            // combined world: all tokens of all invocations, shared context
 	Invs     []string          // token names of the invocations, in execute order (duplicates allowed)
@@ -346,6 +376,15 @@ func (b *Batch) runOn(ch transport.Channel, names []string, obs *BatchObs) {
 	var invs []invocation.Invocation
 	for _, n := range names {
 		invs = append(invs, b.W.built[n].Dlg)
+	}
+	if b.SelfRef {
+		who := b.W.Cast.Ed("selfref")
+		if sr, err := selfRefInvocation(who, b.W.Ctx.Authority, b.W.Cast.Ed("selfref-other").DID.String()); err == nil {
+			invs = append(invs, sr)
+		} else {
+			obs.ExecErr = "selfref: " + err.Error()
+			return
+		}
 	}
 	// a request that is never answered must not hang the harness: it is reported as its own outcome
 	type execResult struct {
